@@ -17,14 +17,14 @@ func init() {
 		ID: "C20", Level: "exploration", Primary: "histories", EvalCount: "steps",
 		Rule: "histories of up to 40 operations over a pool of 8 user DNs (cn=u<a..h>,ou=people,...) and 4 group DNs (cn=g<a..d>,ou=groups,...) with fixed-width names (no DN is a substring of another), issued by " +
 			"1..3 clients strictly one operation at a time: Add (0..4 attributes, 1..3 values), Modify of user entries (add-value on new and existing attributes, delete-attribute, replace of an existing attribute, several " +
-			"changes per request, multi-valued), Delete (users and groups, present and missing), Search (people base with (cn=X); base = entry DN; groups base), SetUsers/SetGroups (model reset with fresh objects, or with entries built by the library's own NewUsers(WithMembersOf) helper, which shares one memberOf slice between all users), and searches with unusual parameters (typesOnly, limits, attribute lists) whose results are not asserted but which must not change the store. " +
+			"changes per request, multi-valued), Add and Delete of 4 further DNs below the groups base (cn=h<a..d>,ou=groups,..., read back by a search based at the entry's own DN), values of 127..70000 bytes now and then, Delete (users and groups, present and missing), Search (people base with (cn=X); base = entry DN; groups base), SetUsers/SetGroups (model reset with fresh objects, or with entries built by the library's own NewUsers(WithMembersOf) helper, which shares one memberOf slice between all users), and searches with unusual parameters (typesOnly, limits, attribute lists) whose results are not asserted but which must not change the store. " +
 			"A reference model (DN -> attribute -> values) is stepped alongside; after every mutating step the affected entry and one other pool entry are searched and compared, and at the end of each history every pool DN. " +
-			"Values added through Modify may appear plain or BER-wrapped (ConvertString). distinct_nontrivial = distinct operation-kind sequences (histories) containing at least one mutation followed by a search",
+			"Values added through add-value modifications may read back plain or BER-wrapped (a well-formed octet string, judged by the harness's own parser); values set through Add, Set* and replace must read back plainly. distinct_nontrivial = distinct operation-kind sequences (histories) containing at least one mutation followed by a search",
 		Assume: []string{"not asserted (the statement is silent): modify of group entries, add of a DN that exists as a group, replace of a missing attribute, the result code of an empty search, attribute order within an entry"},
 		Phases: func(tier string, seed int64) []Phase {
 			return []Phase{{Name: "histories-plain", Run: func(c *Ctx) { c20Run(c, "plain") }}, {Name: "histories-tls", Run: func(c *Ctx) { c20Run(c, "tls") }}}
 		},
-		MinObserved: []string{"steps", "searches_compared", "op/add", "op/modify", "op/delete", "op/set", "searches_with_odd_parameters"},
+		MinObserved: []string{"steps", "searches_compared", "op/add", "op/modify", "op/delete", "op/set", "searches_with_odd_parameters", "searches_based_at_a_dn_below_the_groups_base"},
 	})
 }
 
@@ -35,6 +35,9 @@ const (
 
 type c20Entry struct {
 	Attrs map[string][]string
+	// Wrapped[name][i]: value i of the attribute came from an add-value modification, which this directory stores as
+	// received (BER-wrapped); everything else (Add, Set*, replace) must read back plainly
+	Wrapped map[string][]bool
 }
 
 type c20Model struct {
@@ -50,10 +53,20 @@ var c20AttrNames = []string{"mail", "description", "sn", "telephoneNumber", "tit
 func c20Vals(r *Rand, n int) []string {
 	var out []string
 	for i := 0; i < n; i++ {
-		out = append(out, fmt.Sprintf("v%d-%d", r.Intn(1000), i))
+		v := fmt.Sprintf("v%d-%d", r.Intn(1000), i)
+		if r.Chance(12) { // values around and beyond the one-octet BER length forms
+			v += strings.Repeat("x", pick(r, []int{127, 128, 129, 255, 256, 300, 1000, 65535, 65536, 70000})-len(v))
+			if len(v) > 60000 && !r.Chance(10) {
+				v = v[:200]
+			}
+		}
+		out = append(out, v)
 	}
 	return out
 }
+
+// c20HDN: DNs below the groups base that are only ever created through LDAP Add requests.
+func c20HDN(i int) string { return fmt.Sprintf("cn=h%c,%s", 'a'+i, c20Groups) }
 
 func (m *c20Model) entries(users bool) []*gldap.Entry {
 	src := m.Groups
@@ -77,7 +90,7 @@ func (m *c20Model) entries(users bool) []*gldap.Entry {
 }
 
 // valuesMatch: each observed value equals the model value plainly or after ConvertString.
-func c20ValuesMatch(model, got []string) bool {
+func c20ValuesMatch(model, got []string, mayBeWrapped []bool) bool {
 	if len(model) != len(got) {
 		return false
 	}
@@ -85,9 +98,12 @@ func c20ValuesMatch(model, got []string) bool {
 		if got[i] == model[i] {
 			continue
 		}
-		var conv []string
-		var err error
-		if m, _ := catch(func() { conv, err = gldap.ConvertString(got[i]) }); m != "" || err != nil || len(conv) != 1 || conv[0] != model[i] {
+		if i >= len(mayBeWrapped) || !mayBeWrapped[i] {
+			return false
+		}
+		// BER-wrapped: a well-formed universal octet string (strict, independent parser) whose content is the value
+		n, err := sber.ParseAll([]byte(got[i]))
+		if err != nil || !n.Is(sber.Universal, false, sber.TagOctetString) || string(n.Content) != model[i] {
 			return false
 		}
 	}
@@ -214,11 +230,17 @@ func c20History(c *Ctx, td interface {
 	}
 	// verify searches one DN through the appropriate route and compares with the model
 	verify := func(k *c20Client, dn string) bool {
-		isGroup := strings.HasSuffix(dn, c20Groups)
 		cn := dn[:strings.IndexByte(dn, ',')]
+		addedBelowGroups := strings.HasSuffix(dn, c20Groups) && strings.HasPrefix(cn, "cn=h")
+		isGroup := strings.HasSuffix(dn, c20Groups) && !addedBelowGroups
 		var op *sber.Node
 		mode := "people-filter"
 		switch {
+		case addedBelowGroups || isGroup && r.Chance(35):
+			// read the entry by its own DN (the filter names its RDN, which is what this directory matches on)
+			mode = "base-is-entry-dn-below-groups"
+			op = sber.Search{Base: []byte(dn), Scope: 0, Filter: sber.EqFilter("cn", cn[3:]), Attrs: [][]byte{}}.Node()
+			c.Count("searches_based_at_a_dn_below_the_groups_base", 1)
 		case isGroup:
 			mode = "groups-filter"
 			op = sber.Search{Base: []byte(c20Groups), Scope: 2, Filter: sber.EqFilter("cn", cn[3:]), Attrs: [][]byte{}}.Node()
@@ -262,7 +284,7 @@ func c20History(c *Ctx, td interface {
 				got[string(a.Type)] = append(got[string(a.Type)], bytesToStrs(a.Vals)...)
 			}
 			for name, vals := range me.Attrs {
-				if !c20ValuesMatch(vals, got[name]) {
+				if !c20ValuesMatch(vals, got[name], me.Wrapped[name]) {
 					fail("a search does not reflect the entry's attributes", fmt.Sprintf("%s attribute %q: model %q, search returned %q", dn, name, vals, got[name]))
 				}
 			}
@@ -283,6 +305,9 @@ func c20History(c *Ctx, td interface {
 		switch r.Intn(10) {
 		case 0, 1, 2: // add
 			dn := c20UserDN(r.Intn(8))
+			if r.Chance(20) {
+				dn = c20HDN(r.Intn(4)) // an entry below the groups base, created by an Add request
+			}
 			var attrs []sber.Attr
 			ma := map[string][]string{}
 			names := r.Perm(len(c20AttrNames))
@@ -321,9 +346,14 @@ func c20History(c *Ctx, td interface {
 			var desc []string
 			// plan against a scratch copy so that several changes in one request compose
 			scratch := map[string][]string{}
+			wrapped := map[string][]bool{}
 			if me != nil {
 				for n, v := range me.Attrs {
 					scratch[n] = append([]string{}, v...)
+					wrapped[n] = append(make([]bool, 0, len(v)), me.Wrapped[n]...)
+					for len(wrapped[n]) < len(v) {
+						wrapped[n] = append(wrapped[n], false)
+					}
 				}
 			}
 			for i, n := 0, 1+r.Intn(3); i < n; i++ {
@@ -333,11 +363,18 @@ func c20History(c *Ctx, td interface {
 				case 0: // add-value (new or existing attribute)
 					vals := c20Vals(r, 1+r.Intn(3))
 					changes = append(changes, sber.Change{Op: 0, Attr: sber.Attr{Type: []byte(name), Vals: strsToBytes(vals)}})
+					for len(wrapped[name]) < len(scratch[name]) {
+						wrapped[name] = append(wrapped[name], false)
+					}
 					scratch[name] = append(scratch[name], vals...)
+					for range vals {
+						wrapped[name] = append(wrapped[name], true)
+					}
 					desc = append(desc, fmt.Sprintf("add-value %s %v", name, vals))
 				case 1: // delete-attribute
 					changes = append(changes, sber.Change{Op: 1, Attr: sber.Attr{Type: []byte(name)}})
 					delete(scratch, name)
+					delete(wrapped, name)
 					desc = append(desc, "delete-attribute "+name)
 				case 2: // replace (existing attributes only)
 					if !has {
@@ -346,6 +383,7 @@ func c20History(c *Ctx, td interface {
 					vals := c20Vals(r, 1+r.Intn(3))
 					changes = append(changes, sber.Change{Op: 2, Attr: sber.Attr{Type: []byte(name), Vals: strsToBytes(vals)}})
 					scratch[name] = vals
+					delete(wrapped, name)
 					desc = append(desc, fmt.Sprintf("replace %s %v", name, vals))
 				}
 			}
@@ -368,7 +406,7 @@ func c20History(c *Ctx, td interface {
 				if res.Code != 0 {
 					fail("modifying an existing user entry failed", fmt.Sprintf("%s: result %d", dn, res.Code))
 				} else {
-					me.Attrs = scratch
+					me.Attrs, me.Wrapped = scratch, wrapped
 				}
 			}
 			mutated = true
@@ -380,6 +418,8 @@ func c20History(c *Ctx, td interface {
 			isGroup := r.Chance(30)
 			if isGroup {
 				dn = c20GroupDN(r.Intn(4))
+			} else if r.Chance(20) {
+				dn = c20HDN(r.Intn(4))
 			} else {
 				dn = c20UserDN(r.Intn(8))
 			}
@@ -456,7 +496,7 @@ func c20History(c *Ctx, td interface {
 		}
 	}
 	for i := 0; i < 4; i++ {
-		if !verify(k, c20GroupDN(i)) {
+		if !verify(k, c20GroupDN(i)) || !verify(k, c20HDN(i)) {
 			return false
 		}
 	}
